@@ -116,7 +116,7 @@ impl Aggregate {
             self.samples.push(sample);
         }
         for f in r.findings {
-            if self.findings.len() < 64 {
+            if self.findings.len() < 4096 {
                 self.findings.push((r.idx, f));
             }
         }
